@@ -1,3 +1,513 @@
 package main
 
-func checkMain(args []string) int { return 2 }
+// check.go — the property-level check: generate, discharge, judge, replay,
+// write evidence. Exit 0 held / 1 violation / 2 undecided.
+
+import (
+	"bufio"
+	"encoding/json"
+	"flag"
+	"fmt"
+	"os"
+	"path/filepath"
+	"sort"
+	"strings"
+	"time"
+)
+
+type KnownFinding struct {
+	Kind       string `json:"kind"` // "known" | "fixed"
+	Property   string `json:"property"`
+	Obligation string `json:"obligation"`
+	Region     string `json:"region,omitempty"` // contract expression over the function's entry state
+	Text       string `json:"text"`
+	Commit     string `json:"commit,omitempty"`
+}
+
+func loadKnown(path string) ([]KnownFinding, error) {
+	f, err := os.Open(path)
+	if err != nil {
+		if os.IsNotExist(err) {
+			return nil, nil
+		}
+		return nil, err
+	}
+	defer f.Close()
+	var out []KnownFinding
+	sc := bufio.NewScanner(f)
+	sc.Buffer(make([]byte, 1<<20), 1<<20)
+	for sc.Scan() {
+		ln := strings.TrimSpace(sc.Text())
+		if ln == "" || strings.HasPrefix(ln, "#") || strings.HasPrefix(ln, "fixed:") {
+			continue
+		}
+		var k KnownFinding
+		if err := json.Unmarshal([]byte(ln), &k); err != nil {
+			return nil, fmt.Errorf("%s: %v", path, err)
+		}
+		out = append(out, k)
+	}
+	return out, nil
+}
+
+type Lock struct {
+	Obligations map[string]map[string]string `json:"obligations"` // property -> obligation -> status
+}
+
+func loadLock(path string) *Lock {
+	l := &Lock{Obligations: map[string]map[string]string{}}
+	data, err := os.ReadFile(path)
+	if err == nil {
+		json.Unmarshal(data, l)
+	}
+	return l
+}
+
+func okStatus(o *Obligation) bool {
+	if o.Kind == "vacuity" {
+		return o.Status == "sat"
+	}
+	return o.Status == "unsat"
+}
+
+type propRun struct {
+	id       string
+	results  []*FuncResult
+	obls     []*Obligation
+	v        *Verifier
+}
+
+func (v *Verifier) generateProperty(id string) (*propRun, error) {
+	names, ok := v.cs.Props[id]
+	if !ok {
+		return nil, fmt.Errorf("no `//@ property %s:` line in any contract file", id)
+	}
+	pr := &propRun{id: id, v: v}
+	seen := map[string]bool{}
+	for _, n := range names {
+		if seen[n] {
+			continue
+		}
+		seen[n] = true
+		if strings.HasPrefix(n, "lemma/") {
+			lm := v.cs.Lemmas[strings.TrimPrefix(n, "lemma/")]
+			if lm == nil {
+				return nil, fmt.Errorf("property %s names unknown lemma %s", id, n)
+			}
+			pr.results = append(pr.results, v.VerifyLemma(lm))
+			continue
+		}
+		fc := v.cs.Funcs[n]
+		if fc == nil {
+			return nil, fmt.Errorf("property %s names %s, which has no contract", id, n)
+		}
+		if fc.Assumed || fc.Iface {
+			continue
+		}
+		pr.results = append(pr.results, v.VerifyFunc(fc))
+	}
+	for _, r := range pr.results {
+		pr.obls = append(pr.obls, r.Obls...)
+	}
+	return pr, nil
+}
+
+func checkMain(args []string) int {
+	fs := flag.NewFlagSet("check", flag.ExitOnError)
+	repo := fs.String("repo", "/repo", "repository")
+	root := fs.String("verif", "/verif", "verification root")
+	tier := fs.String("tier", "quick", "quick|thorough")
+	replayPath := fs.String("replay", "", "re-run a replay file")
+	writeLock := fs.Bool("write-lock", false, "record the discharged obligations in obligations.lock (reference tree only)")
+	noEvidence := fs.Bool("no-evidence", false, "do not write evidence (used by selftest)")
+	fs.Parse(args)
+	if *replayPath != "" {
+		return replayMain(*repo, *replayPath)
+	}
+	if fs.NArg() != 1 {
+		fmt.Fprintln(os.Stderr, "usage: vcgen check [--tier quick|thorough] <property id>")
+		return 2
+	}
+	if t := os.Getenv("VERIF_TIER"); t != "" && *tier == "quick" {
+		// explicit flag wins; env only fills the default
+	}
+	id := fs.Arg(0)
+	start := time.Now()
+	seed := 0
+	if s := os.Getenv("VERIF_SEED"); s != "" {
+		fmt.Sscan(s, &seed)
+	}
+	v, err := LoadVerifier(*repo, filepath.Join(*root, "deps"))
+	if err != nil {
+		fmt.Fprintf(os.Stderr, "UNDECIDED property=%s: cannot load /repo with -tags verif: %v\n", id, err)
+		return 2
+	}
+	loadS := time.Since(start).Seconds()
+	pr, err := v.generateProperty(id)
+	if err != nil {
+		fmt.Fprintf(os.Stderr, "UNDECIDED property=%s: %v\n", id, err)
+		return 2
+	}
+	timeout := 30
+	all := false
+	if *tier == "thorough" {
+		timeout = 300
+		all = true
+	}
+	work, _ := os.MkdirTemp("", "vcgen-"+id)
+	defer os.RemoveAll(work)
+	solveAll(pr.obls, work, timeout, all)
+
+	known, err := loadKnown(filepath.Join(*root, "known_findings.jsonl"))
+	if err != nil {
+		fmt.Fprintf(os.Stderr, "UNDECIDED property=%s: %v\n", id, err)
+		return 2
+	}
+	lock := loadLock(filepath.Join(*root, "obligations.lock"))
+	locked := lock.Obligations[id]
+
+	exit := 0
+	undecided := []string{}
+	violations := 0
+	var knownLines []string
+	discharged, total, vacuity := 0, 0, 0
+	bySolver := map[string]int{}
+	solverSeconds := 0.0
+	var funcs []string
+	var restricted []string
+	resOf := map[*Obligation]*FuncResult{}
+	for _, r := range pr.results {
+		funcs = append(funcs, r.Name)
+		for _, o := range r.Obls {
+			resOf[o] = r
+		}
+		if r.Unsupported != "" {
+			undecided = append(undecided, fmt.Sprintf("%s: %s", r.Name, r.Unsupported))
+		}
+	}
+	replayDir := filepath.Join(*root, "replays", id)
+	for _, o := range pr.obls {
+		solverSeconds += o.Seconds
+		if o.Kind == "vacuity" {
+			vacuity++
+			if o.Status == "unsat" {
+				undecided = append(undecided, fmt.Sprintf("%s: precondition is unsatisfiable (vacuous contract)", o.Name))
+			}
+			continue
+		}
+		total++
+		if o.Status == "disagree" {
+			undecided = append(undecided, fmt.Sprintf("%s: solvers disagree", o.Name))
+			continue
+		}
+		if okStatus(o) {
+			discharged++
+			bySolver[o.Solver]++
+			continue
+		}
+		// failing obligation
+		r := resOf[o]
+		handled := false
+		for _, k := range known {
+			if k.Kind != "known" || k.Property != id || k.Obligation != o.Name {
+				continue
+			}
+			// is the failure confined to the listed region?
+			if k.Region == "" {
+				knownLines = append(knownLines, fmt.Sprintf("KNOWN-FINDING: property=%s %s (%s)", id, k.Text, o.Name))
+				handled = true
+				total--
+				break
+			}
+			if r.EntryEnv != nil {
+				e, perr := ParseExpr(k.Region)
+				if perr == nil {
+					rt, eerr := r.EntryEnv.Bool(e)
+					if eerr == nil {
+						o2 := *o
+						o2.Guard = and(o.Guard, not(rt))
+						o2.Name = o.Name + "~outside-known-region"
+						// the region term may use names declared after o.Mark
+						o2.Mark = len(o.Ctx.lines)
+						o2.Inputs = nil
+						o2.Solve(work, timeout, false)
+						solverSeconds += o2.Seconds
+						if o2.Status == "unsat" {
+							knownLines = append(knownLines, fmt.Sprintf("KNOWN-FINDING: property=%s %s (%s fails only where %s)", id, k.Text, o.Name, k.Region))
+							restricted = append(restricted, fmt.Sprintf("%s proved outside the known region %s", o.Name, k.Region))
+							discharged++
+							bySolver[o2.Solver]++
+							handled = true
+						}
+					}
+				}
+			}
+			break
+		}
+		if handled {
+			continue
+		}
+		// replay
+		rf := &ReplayFile{Property: id, Obligation: o.Name, Kind: o.Kind, Function: o.Func, Text: o.Text, Pos: o.Pos,
+			Status: o.Status, Solver: o.Solver, SolverOut: truncate(o.Raw, 6000)}
+		confirmed := false
+		replayRan := false
+		if r != nil && r.Plan != nil && len(o.Model) > 0 && !o.Safety && o.Kind != "post" && o.Kind != "lemma" && r.AllTerms != nil {
+			// a mid-function obligation that does not panic (overflow, …):
+			// solve it again in the context of the whole function so that the
+			// model also predicts the outputs.
+			o2 := *o
+			o2.Mark = len(o.Ctx.lines)
+			o2.Inputs = r.AllTerms
+			o2.Name = o.Name + "~full"
+			o2.Solve(work, timeout, false)
+			if o2.Status == "sat" && len(o2.Model) > 0 {
+				o.Model = o2.Model
+				o.Inputs = r.AllTerms
+			}
+		}
+		if r != nil && r.Plan != nil && len(o.Model) > 0 {
+			src, predicted, _, note := v.BuildReplay(r, o)
+			rf.ReplayNote = note
+			if src != "" {
+				observed, pmsg, done, raw := RunReplay(*repo, r.Plan.PkgPath, src)
+				replayRan = done || pmsg != ""
+				rf.TestSource, rf.Predicted, rf.Observed, rf.Panic = src, predicted, observed, pmsg
+				rf.PkgDir = r.Plan.PkgPath
+				rf.RunOutput = truncate(raw, 4000)
+				rf.Inputs = map[string]string{}
+				for _, nt := range o.Inputs {
+					if strings.HasPrefix(nt.Name, "in:") {
+						if val, ok := o.Model[normTerm(nt.T)]; ok && !strings.Contains(nt.Name, ".b") {
+							rf.Inputs[nt.Name] = val
+						}
+					}
+				}
+				if o.Safety {
+					confirmed = pmsg != ""
+				} else if done && pmsg == "" && len(predicted) > 0 {
+					confirmed = true
+					for k, pv := range predicted {
+						if observed[k] != pv {
+							confirmed = false
+						}
+					}
+				} else if pmsg != "" {
+					// a panic where the contract promises a normal return
+					confirmed = true
+				}
+			}
+		}
+		rf.Confirmed = confirmed
+		_, wasLocked := locked[o.Name]
+		if !wasLocked && o.Safety {
+			// safety obligations are locked as a class per function
+			_, wasLocked = locked[o.Func+"/"+strings.SplitN(o.Kind, "#", 2)[0]+"*"]
+		}
+		os.MkdirAll(replayDir, 0o755)
+		rpath := filepath.Join(replayDir, sanitize(o.Name)+".json")
+		switch {
+		case confirmed:
+			rf.Verdict = "violation: counterexample confirmed on the real code"
+			writeJSON(rpath, rf)
+			fmt.Printf("VIOLATION property=%s replay=%s\n", id, rpath)
+			violations++
+			exit = 1
+		case o.Safety && replayRan && !confirmed:
+			rf.Verdict = "undecided: the model's input does not make the real code fail (invariant too weak for this code)"
+			writeJSON(rpath, rf)
+			undecided = append(undecided, fmt.Sprintf("%s: %s; model not reproducible on the real code (%s)", o.Name, o.Status, rpath))
+		case wasLocked:
+			rf.Verdict = "violation: obligation was discharged on the reference tree and fails now; no failing input found"
+			writeJSON(rpath, rf)
+			fmt.Printf("VIOLATION property=%s replay=%s no-failing-input-found\n", id, rpath)
+			violations++
+			exit = 1
+		default:
+			rf.Verdict = "undecided: obligation is not in obligations.lock"
+			writeJSON(rpath, rf)
+			undecided = append(undecided, fmt.Sprintf("%s: %s (%s) [%s]", o.Name, o.Status, o.Text, o.Pos))
+		}
+	}
+	// vacuity of the whole run and missing locked named obligations
+	if total == 0 {
+		undecided = append(undecided, "no obligations were generated")
+	}
+	have := map[string]bool{}
+	for _, o := range pr.obls {
+		have[o.Name] = true
+	}
+	missing := 0
+	for name := range locked {
+		if strings.HasSuffix(name, "*") {
+			continue
+		}
+		if !have[name] && isNamedKind(name) {
+			missing++
+			undecided = append(undecided, "locked obligation no longer generated: "+name)
+		}
+	}
+	for _, l := range knownLines {
+		fmt.Println(l)
+	}
+	if len(undecided) > 0 && exit == 0 {
+		exit = 2
+	}
+	for _, u := range undecided {
+		fmt.Fprintf(os.Stderr, "UNDECIDED property=%s %s\n", id, u)
+	}
+
+	// evidence
+	trusted := map[string]bool{}
+	dropped := map[string]bool{}
+	for _, r := range pr.results {
+		if r.Ctx == nil {
+			continue
+		}
+		for k := range r.Ctx.trusted {
+			trusted[k] = true
+		}
+		for k := range r.Ctx.dropped {
+			dropped[k] = true
+		}
+	}
+	trusted["M3: go/ssa (x/tools v0.29.0) builds SSA that means what the Go spec says; z3 4.8.12 / z3 5.1.0 / cvc5 1.0 are sound; vcgen implements DESIGN §4"] = true
+	trusted["A-NONNIL: nil-dereference panics are not checked unless a contract enables `option nilcheck`"] = true
+	trusted["A-MACHINE: lengths and offsets of live strings/slices are in [0, 2^48)"] = true
+	trusted["A-SLICE-VALUE: slices are modelled as immutable sequences (value semantics); element stores are only accepted into slices made in the same function"] = true
+	var samples []interface{}
+	for _, o := range pr.obls {
+		if o.Kind == "vacuity" || len(samples) >= 6 {
+			continue
+		}
+		if len(samples) < 3 || o.Kind == "post" || o.Kind == "lemma" {
+			samples = append(samples, map[string]interface{}{"obligation": o.Name, "clause": o.Text, "position": o.Pos,
+				"status": o.Status, "solver": o.Solver, "seconds": round3(o.Seconds), "smt_bytes": len(o.Script(false))})
+		}
+	}
+	var perObl []map[string]interface{}
+	for _, o := range pr.obls {
+		perObl = append(perObl, map[string]interface{}{"name": o.Name, "kind": o.Kind, "status": o.Status, "solver": o.Solver, "seconds": round3(o.Seconds)})
+	}
+	sort.Strings(funcs)
+	ev := map[string]interface{}{
+		"property_id": id,
+		"tier":        *tier,
+		"seed":        seed,
+		"level":       "proof",
+		"coverage": map[string]interface{}{
+			"obligations":              total,
+			"discharged":               discharged,
+			"checker_cmd":              fmt.Sprintf("/verif/bin/vcgen check --tier %s %s  (VC generation from go/ssa of /repo -tags verif; per obligation a race of z3-new, z3, cvc5; timeout %ds)", *tier, id, timeout),
+			"trusted_base":             keys(trusted),
+			"functions_under_contract": funcs,
+			"vacuity_checks_sat":       vacuity,
+			"discharged_by_backend":    bySolver,
+			"solver_seconds":           round3(solverSeconds),
+			"load_seconds":             round3(loadS),
+			"samples":                  samples,
+			"per_obligation":           perObl,
+			"restricted_by_known_findings": restricted,
+			"bounded_standins":         []string{},
+			"undecided":                undecided,
+			"translation_drops":        keys(dropped),
+			"all_solvers_must_agree":   all,
+		},
+		"assumptions": keys(trusted),
+		"wall_s":      round3(time.Since(start).Seconds()),
+		"violations":  violations,
+	}
+	if !*noEvidence {
+		os.MkdirAll(filepath.Join(*root, "evidence"), 0o755)
+		writeJSON(filepath.Join(*root, "evidence", id+".json"), ev)
+	}
+	if *writeLock {
+		if exit != 0 {
+			fmt.Fprintln(os.Stderr, "refusing to write the lock: the check did not pass")
+		} else {
+			m := map[string]string{}
+			for _, o := range pr.obls {
+				if o.Kind == "vacuity" {
+					continue
+				}
+				if o.Safety {
+					m[o.Func+"/"+o.Kind+"*"] = "class"
+				}
+				if okStatus(o) {
+					m[o.Name] = o.Status
+				}
+			}
+			lock.Obligations[id] = m
+			writeJSON(filepath.Join(*root, "obligations.lock"), lock)
+		}
+	}
+	fmt.Printf("property=%s tier=%s obligations=%d discharged=%d violations=%d undecided=%d wall=%.1fs\n",
+		id, *tier, total, discharged, violations, len(undecided), time.Since(start).Seconds())
+	return exit
+}
+
+func isNamedKind(name string) bool {
+	for _, k := range []string{"/post", "/frame", "/inv-", "lemma/", "/decreases"} {
+		if strings.Contains(name, k) {
+			return true
+		}
+	}
+	return false
+}
+
+func truncate(s string, n int) string {
+	if len(s) > n {
+		return s[:n] + "…"
+	}
+	return s
+}
+
+func round3(f float64) float64 { return float64(int(f*1000+0.5)) / 1000 }
+
+func keys(m map[string]bool) []string {
+	out := []string{}
+	for k := range m {
+		out = append(out, k)
+	}
+	sort.Strings(out)
+	return out
+}
+
+func writeJSON(path string, v interface{}) {
+	data, _ := json.MarshalIndent(v, "", " ")
+	os.WriteFile(path, append(data, '\n'), 0o644)
+}
+
+func replayMain(repo, path string) int {
+	data, err := os.ReadFile(path)
+	if err != nil {
+		fmt.Fprintln(os.Stderr, err)
+		return 2
+	}
+	var rf ReplayFile
+	if err := json.Unmarshal(data, &rf); err != nil {
+		fmt.Fprintln(os.Stderr, err)
+		return 2
+	}
+	fmt.Printf("obligation: %s\nclause:     %s\nverdict:    %s\n", rf.Obligation, rf.Text, rf.Verdict)
+	if rf.TestSource == "" {
+		fmt.Println("no executable counterexample is attached (no-failing-input-found); solver output:")
+		fmt.Println(rf.SolverOut)
+		return 1
+	}
+	observed, pmsg, done, raw := RunReplay(repo, rf.PkgDir, rf.TestSource)
+	fmt.Printf("predicted: %v\nobserved:  %v\npanic:     %s\ndone: %v\n", rf.Predicted, observed, pmsg, done)
+	same := pmsg == rf.Panic
+	for k, pv := range rf.Predicted {
+		if observed[k] != pv {
+			same = false
+		}
+	}
+	if same {
+		fmt.Println("REPRODUCED on the current tree")
+		return 1
+	}
+	fmt.Println("not reproduced on the current tree")
+	fmt.Println(truncate(raw, 2000))
+	return 0
+}
